@@ -148,7 +148,7 @@ for variant, updater, bound, other, better, measure in (
             inv = [c for c in inv if "best_solution" not in c[1]] + [("C03.bound_inside", f"{ROOT}[{OBJ_D}, 0] <= {S0}[0, {OBJ_D}, MIN] and {S0}[0, {OBJ_D}, MAX] <= {ROOT}[{OBJ_D}, 1]")]
         lc["invariant"] = inv
         lc = {k: v for k, v in lc.items() if v is not None}
-        contract(BS + "BacktrackSolver." + fn, variant=variant, types=types, result="none", props=["C03", "C11", "C16"],
+        contract(BS + "BacktrackSolver." + fn, variant=variant, types=types, result="none", props=["C03", "C11", "C16", "C04", "C13"],
             requires=OPT_REQ, env=env, ghost_init=ginit, calls={"update_domain_fct": updater},
             loops={1: lc},
             ensures=([("C03.result_in_domain", f"implies(result is not None, {OBJ_LO} <= result[variable_idx] and result[variable_idx] <= {OBJ_HI})"),
